@@ -11,6 +11,7 @@ CONSTANTS
   MaxIter = 1
   GS = 4
   G = 2
+  Rounds = 1
   TOL = 0
   EMIT = FALSE
 INVARIANT TemplatesOnLattice
